@@ -26,6 +26,20 @@ class Abort(BaseException):
     """harness-requested abandonment of a path (outside the stated bound)."""
 
 
+class PathTimeout(Exception):
+    """the code under check did not finish one path within the wall-clock limit: reported to on_path as the path's
+    exception, with the inputs the harness noted (Path.note) concretised under a model of the path condition so far"""
+
+    def __init__(self, seconds, inputs):
+        super().__init__("no result after %ds of wall-clock time on one path" % seconds)
+        self.seconds = seconds
+        self.inputs = inputs
+
+
+import os as _os
+PATH_WALL_LIMIT = int(_os.environ.get("VERIF_PATH_LIMIT", "120"))     # seconds of wall-clock time one path may take (a hang of the code under check is a finding, not a hang of the check)
+
+
 CUR = None  # the active path context
 DUMP_EVERY = 0   # >0: every n-th discharged VC is dumped as SMT-LIB2 for the second solver
 _VC_COUNTER = [0]
@@ -58,6 +72,11 @@ class Path:
         self.inconclusive = 0
         self.nvars = 0
         self.dumped = []
+        self.noted = {}
+
+    def note(self, name, obj):
+        """remember a symbolic input of this path by name (used to describe a path that never finishes)"""
+        self.noted[name] = obj
 
     # ---- solver plumbing
     def _check(self, *extra):
@@ -234,8 +253,33 @@ def explore_subtree(harness, on_path, prefix, budget=None, timeout_ms=20000):
         p = Path(pre, timeout_ms)
         CUR = p
         res = exc = None
+        import signal as _signal
+
+        def _alarm(signum, frame):
+            raise PathTimeout(PATH_WALL_LIMIT, None)
         try:
-            res = harness(p)
+            old_handler = _signal.signal(_signal.SIGALRM, _alarm)
+            _signal.setitimer(_signal.ITIMER_REAL, PATH_WALL_LIMIT, 1.0)      # repeats: an exception raised inside a __del__ is swallowed
+            armed = True
+        except ValueError:          # not in the main thread of this process: no watchdog
+            armed = False
+        try:
+            try:
+                res = harness(p)
+            finally:
+                if armed:
+                    _signal.setitimer(_signal.ITIMER_REAL, 0)
+                    _signal.signal(_signal.SIGALRM, old_handler)
+        except PathTimeout as e:
+            inputs = {}
+            try:
+                m = p.witness()
+                for k, v in p.noted.items():
+                    inputs[k] = v.concretize(m) if hasattr(v, "concretize") else v
+            except BaseException:
+                pass
+            exc = PathTimeout(e.seconds, inputs)
+            st["hung"] = st.get("hung", 0) + 1
         except Infeasible:
             raise EngineError("replayed prefix became infeasible: %r" % (pre,))
         except Abort:
